@@ -5,7 +5,7 @@ From Coq Require Import List String ZArith.
 Import ListNotations.
 From Anthem Require Import Syntax.Fol Syntax.Asp Sem.Domain Sem.Sat Sem.AspRef
   Model.Completion Model.Tightness
-  Proofs.EnvFacts Proofs.CompletionShape Proofs.CompletionOk Proofs.FagesBridge.
+  Proofs.EnvFacts Proofs.CompletionShape Proofs.CompletionOk Proofs.FagesBridge Proofs.FagesExample.
 Open Scope string_scope.
 Open Scope list_scope.
 
@@ -96,6 +96,20 @@ Proof.
   intros ts Hb P ins D FI T Ht Hi Hc Hv. exact (C04_fages_partial P (ts P) ins D FI T (Hb FI P) Ht Hi Hc Hv).
 Qed.
 Print Assumptions C04_fages_from_bridge.
+
+(* The hypothesis [represents] is satisfiable by a genuine tau*-theory: G2 is what the implementation
+   prints for  P2 =  p(X) :- q(X).  :- p(1).  (Proofs/FagesExample.v), D2 its completion with input
+   q/1; so for this program the full statement holds outright. *)
+Theorem C04_represents_nonvacuous : forall FI : fint, represents FI G2 P2.
+Proof. exact represents_G2. Qed.
+Print Assumptions C04_represents_nonvacuous.
+Theorem C04_fages_instance :
+  forall (FI : fint) (T : pint),
+  completion G2 [mkpred "q" 1] = Some D2 /\
+  ((forall p d, T p d -> (p = "p" \/ p = "q") /\ List.length d = 1) ->
+   ((forall f, In f D2 -> cvalid FI T f) <-> stable T P2 (input_facts T [mkpred "q" 1]))).
+Proof. exact (fun FI T => conj completion_G2 (fages_instance FI T)). Qed.
+Print Assumptions C04_fages_instance.
 
 (* ---------------- non-vacuity ---------------- *)
 Definition gv (x : string) : gterm := GVar x.
